@@ -20,7 +20,7 @@ NAMES = {
     "C06": None,  # every predicate, on fault transitions and on everything reachable after a fault
     "C07": ["C07"],
     "C09": ["C09"],
-    "C10": ["C10a", "C10b"],
+    "C10": ["C10a", "C10b", "C10bg"],
     "C11": ["C11a", "C11b", "C11c", "C11d"],
     "C18": ["C18a", "C18br", "C18b", "C18tr"],
 }
